@@ -42,6 +42,129 @@ REFERENCE_CONSTANTS = {
 ALLOWED_EFFECT_FREE = {"Pass", "Expr?", "Import", "ImportFrom"}
 
 
+OPERATOR_FN = {"operator.gt": "{a} > {b}", "operator.ge": "{a} >= {b}", "operator.lt": "{a} < {b}", "operator.le": "{a} <= {b}",
+               "operator.eq": "{a} == {b}", "operator.ne": "{a} != {b}", "sympy.Eq": "sympy.Eq({a}, {b})", "sympy.Ne": "sympy.Ne({a}, {b})",
+               "sympy.Gt": "{a} > {b}", "sympy.Ge": "{a} >= {b}", "sympy.Lt": "{a} < {b}", "sympy.Le": "{a} <= {b}",
+               "sympy.StrictGreaterThan": "{a} > {b}", "sympy.GreaterThan": "{a} >= {b}", "sympy.StrictLessThan": "{a} < {b}", "sympy.LessThan": "{a} <= {b}"}
+
+
+def compare_links(mod, he: ast.FunctionDef):
+    """The comparison-chain translation of _handle_expr in canonical form.
+
+    -> (links, default, anchor): links = {operator kind: expression over PREV / RIGHT}, default = what happens to an operator
+    kind that is not handled ("raise", "continue", "pass", ..), anchor = node.  Understands an isinstance chain on the operator
+    and a lookup in a module-level {ast.<Op>: callable} table.  None when the loop over the links is not found."""
+    loops = [l for l in walk_no_nested(he) if isinstance(l, ast.For) and "node.ops" in norm(l.iter) and "node.comparators" in norm(l.iter)
+             and isinstance(l.target, ast.Tuple) and len(l.target.elts) == 2]
+    if not loops:
+        return None
+    lp = loops[0]
+    opv, cmpv = norm(lp.target.elts[0]), norm(lp.target.elts[1])
+
+    def unwrap(e):
+        while isinstance(e, ast.Call) and norm(e.func) == "cast" and len(e.args) == 2:
+            e = e.args[1]
+        return e
+
+    right = prev = None
+    for s in lp.body:
+        if isinstance(s, ast.Assign) and isinstance(s.targets[0], ast.Name):
+            v = unwrap(s.value)
+            if isinstance(v, ast.Call) and norm(v.func) == "_handle_expr" and v.args and norm(v.args[0]) == cmpv:
+                right = s.targets[0].id
+    last = lp.body[-1]
+    if right and isinstance(last, ast.Assign) and isinstance(last.targets[0], ast.Name) and norm(last.value) == right:
+        prev = last.targets[0].id
+    # prev must start as the translation of node.left
+    sc = Scope(he)
+    init_ok = False
+    if prev:
+        for s in walk_no_nested(he):
+            if isinstance(s, ast.Assign) and norm(s.targets[0]) == prev and s is not last:
+                v = unwrap(s.value)
+                init_ok = isinstance(v, ast.Call) and norm(v.func) == "_handle_expr" and v.args and norm(v.args[0]) == "node.left"
+    if not (right and prev and init_ok):
+        return {}, "roles-not-recognised", lp
+
+    def canon(e: ast.AST) -> str:
+        class R(ast.NodeTransformer):
+            def visit_Name(self, n):
+                return ast.Name(id={prev: "PREV", right: "RIGHT"}.get(n.id, n.id), ctx=n.ctx)
+        import copy as _c
+        return norm(R().visit(_c.deepcopy(e)))
+
+    links: dict[str, str] = {}
+    default = "none"
+    # (a) isinstance chain on the operator
+    chain = [n for n in lp.body if isinstance(n, ast.If) and isinstance_kinds(n.test)]
+    if chain:
+        d = if_chain(chain[0])
+        default = classify_body(d.default) if d.default else "none"
+        cur = chain[0]
+        while True:
+            r = isinstance_kinds(cur.test)
+            if r:
+                app = [c for c in ast.walk(ast.Module(body=cur.body, type_ignores=[])) if isinstance(c, ast.Call) and isinstance(c.func, ast.Attribute) and c.func.attr == "append" and c.args]
+                for k in r[1]:
+                    links[k] = canon(app[0].args[0]) if app else "?"
+            if len(cur.orelse) == 1 and isinstance(cur.orelse[0], ast.If):
+                cur = cur.orelse[0]
+            else:
+                break
+        return links, default, chain[0]
+    # (b) table lookup
+    for n in ast.walk(lp):
+        tbl = key = None
+        if isinstance(n, ast.Call) and isinstance(n.func, ast.Attribute) and n.func.attr == "get" and isinstance(n.func.value, ast.Name) and len(n.args) == 1:
+            tbl, key, how = n.func.value.id, n.args[0], "get"
+        elif isinstance(n, ast.Subscript) and isinstance(n.value, ast.Name) and isinstance(n.ctx, ast.Load):
+            tbl, key, how = n.value.id, n.slice, "index"
+        if tbl is None or norm(key) != f"type({opv})" or tbl not in mod.assigns or not isinstance(mod.assigns[tbl], ast.Dict):
+            continue
+        table = mod.assigns[tbl]
+        # the looked-up callable and where it is applied
+        sc_ = Scope(he)
+        st_ = sc_.stmt_of(n)
+        rel = None
+        if isinstance(st_, ast.Assign) and isinstance(st_.targets[0], ast.Name):
+            rel = st_.targets[0].id
+        for w in ast.walk(st_):
+            if isinstance(w, ast.NamedExpr) and w.value is n:
+                rel = w.target.id
+        app = [c for c in ast.walk(lp) if isinstance(c, ast.Call) and isinstance(c.func, ast.Attribute) and c.func.attr == "append" and c.args]
+        applied = None
+        for c in app:
+            a0 = c.args[0]
+            if isinstance(a0, ast.Call) and len(a0.args) == 2 and (norm(a0.func) == rel or a0.func is n):
+                applied = (canon(a0.args[0]), canon(a0.args[1]))
+        if applied is None:
+            return {}, "application-not-recognised", lp
+        for kx, vx in zip(table.keys, table.values):
+            kind = norm(kx).split(".")[-1]
+            form = OPERATOR_FN.get(norm(vx))
+            if form is None and isinstance(vx, ast.Lambda) and len(vx.args.args) == 2:
+                a_, b_ = vx.args.args[0].arg, vx.args.args[1].arg
+                class L(ast.NodeTransformer):
+                    def visit_Name(self, m):
+                        return ast.Name(id={a_: applied[0], b_: applied[1]}.get(m.id, m.id), ctx=m.ctx)
+                import copy as _c
+                links[kind] = norm(L().visit(_c.deepcopy(vx.body)))
+                continue
+            links[kind] = form.format(a=applied[0], b=applied[1]) if form else f"{norm(vx)}({applied[0]}, {applied[1]})"
+        if how == "index":
+            default = "raise"  # KeyError
+        else:
+            # `.get(..) is None -> raise`
+            default = "none"
+            for g in ast.walk(lp):
+                if isinstance(g, ast.If) and any(isinstance(x, ast.Raise) for x in g.body):
+                    t = norm(g.test)
+                    if rel and (t == f"{rel} is None" or t.endswith(f"{rel} := {norm(n)}) is None") or t == f"({rel} := {norm(n)}) is None"):
+                        default = "raise"
+        return links, default, n
+    return {}, "dispatch-not-recognised", lp
+
+
 class C06(Check):
     pid = "C06"
     title = "Python-to-symbolic translation is sound: equal everywhere, or refused"
@@ -195,18 +318,17 @@ class C06(Check):
                         else:
                             self.violated("S1", MOD, name, cons, n, f"unhandled `{d.var}` shapes are not refused ({what})",
                                           witness="an operator without a translation (e.g. `~x`, `x @ y`, `x << 1`) yields an expression")
-        # operator chain in the Compare handler
-        cmp_if = [n for n in walk_no_nested(he) if isinstance(n, ast.If) and isinstance_kinds(n.test) and isinstance_kinds(n.test)[1] <= {"Gt", "GtE", "Lt", "LtE", "Eq", "NotEq", "In", "NotIn", "Is", "IsNot"}]
-        if not cmp_if:
-            self.undecided_ob("S1", MOD, "_handle_expr", "comparison-operators", he, "comparison operator dispatch not recognised")
+        # operator dispatch in the Compare handler
+        cl = compare_links(mod, he)
+        if cl is None or not cl[0]:
+            self.undecided_ob("S1", MOD, "_handle_expr", "comparison-operators", he, f"comparison operator dispatch not recognised ({cl[1] if cl else 'no loop over the links'})")
         else:
-            d = if_chain(cmp_if[0])
-            what = classify_body(d.default) if d.default else "none"
+            links, what, anchor = cl
             if what in REFUSES:
-                self.holds("S1", MOD, "_handle_expr", "comparison-operators", d.default_node, f"operators handled: {sorted(d.kinds)}; others -> {what}")
+                self.holds("S1", MOD, "_handle_expr", "comparison-operators", anchor, f"operators handled: {sorted(links)}; others -> {what}")
             else:
-                self.violated("S1", MOD, "_handle_expr", "comparison-operators", cmp_if[0],
-                              f"comparison operators other than {sorted(d.kinds)} are dropped from the chain instead of refused",
+                self.violated("S1", MOD, "_handle_expr", "comparison-operators", anchor,
+                              f"comparison operators other than {sorted(links)} are dropped from the chain instead of refused",
                               witness="`k if x is y else 0` / `a < b in c`: the unknown link disappears, the condition means something else")
 
     # ---- S2
@@ -411,19 +533,18 @@ class C06(Check):
                     self.violated("S11", MOD, fname, f"operator {k}", c.body[-1], f"Python {k} is translated as `{got}` instead of `{table[k]}`",
                                   witness=f"a rate law using the {k} operator translates to an expression with different values")
         he = mod.func("_handle_expr")
-        CMP = {"Gt": "prev_value > right", "GtE": "prev_value >= right", "Lt": "prev_value < right", "LtE": "prev_value <= right",
-               "Eq": "sympy.Eq(prev_value, right)", "NotEq": "sympy.Ne(prev_value, right)"}
-        for n in walk_no_nested(he):
-            if isinstance(n, ast.If):
-                r = isinstance_kinds(n.test)
-                if r and len(r[1]) == 1 and next(iter(r[1])) in CMP:
-                    k = next(iter(r[1]))
-                    got = norm(n.body[0].value.args[0]) if isinstance(n.body[0], ast.Expr) and isinstance(n.body[0].value, ast.Call) and n.body[0].value.args else "?"
-                    if got == CMP[k]:
-                        self.holds("S11", MOD, "_handle_expr", f"comparison {k}", n.body[0], f"{k} -> {got}")
-                    else:
-                        self.violated("S11", MOD, "_handle_expr", f"comparison {k}", n.body[0], f"Python comparison {k} is translated as `{got}` instead of `{CMP[k]}`",
-                                      witness="a conditional rate law switches branches at the wrong side of its threshold")
+        CMP = {"Gt": "PREV > RIGHT", "GtE": "PREV >= RIGHT", "Lt": "PREV < RIGHT", "LtE": "PREV <= RIGHT",
+               "Eq": "sympy.Eq(PREV, RIGHT)", "NotEq": "sympy.Ne(PREV, RIGHT)"}
+        cl = compare_links(mod, he)
+        if cl and cl[0]:
+            for k, got in sorted(cl[0].items()):
+                if k not in CMP:
+                    self.info("S11", MOD, "_handle_expr", f"comparison {k}", cl[2], f"unvetted comparison -> {got}")
+                elif got == CMP[k]:
+                    self.holds("S11", MOD, "_handle_expr", f"comparison {k}", cl[2], f"{k} -> {got} (PREV = translated left neighbour, RIGHT = translated comparator)")
+                else:
+                    self.violated("S11", MOD, "_handle_expr", f"comparison {k}", cl[2], f"Python comparison {k} is translated as `{got}` instead of `{CMP[k]}`",
+                                  witness="a conditional rate law switches branches at the wrong side of its threshold")
         pw = [r for r in walk_no_nested(he) if isinstance(r, ast.Return) and "Piecewise" in norm(r.value) and "if_true" in norm(r.value)]
         if pw and norm(pw[0].value) == "sympy.Piecewise((if_true, condition), (if_false, True))":
             defs = {norm(a.targets[0]): norm(a.value) for a in walk_no_nested(he) if isinstance(a, ast.Assign) and isinstance(a.targets[0], ast.Name)}
